@@ -294,6 +294,11 @@ def run(ctx, chk):
              "(a failed load leaves nothing allocated; shared with C01.drain)")
     from props.c01 import check_load_paths
     check_load_paths(chk, prog, eff, R_window=None, R_drain="C05.drain", R_outcome=None)
+    chk.rule("C05.narrowing", "no 64-bit quantity is converted to a narrower integer type except to take one byte of it or below a range "
+             "test that makes the conversion lossless: with a declared count kept in 32 bits a truncated container is reported as "
+             "complete instead of NOTENOUGHDATA (shared with C02.narrowing)")
+    import rules as _rnw
+    _rnw.check_narrowing(chk, "C05.narrowing", prog, eff=eff)
     chk.exhaustive = True
 
 
